@@ -158,4 +158,34 @@ def run_c12(it):
                     routes.append(name + ":first step")
                     news.append(n)
                     dns.append(d)
-    return {"id": it["id"], "routes": routes, "news": news, "dns": dns, "loops": loops}
+    # probabilistic variant (nb_prob_samples > 0, C only): paths are sampled, not optimal, so only the consequences
+    # that hold for ANY path are judged: every value stays within the range of the SELECTED series
+    probs = []
+
+    def addp(name, fn):
+        r = dtwx.guarded(fn)
+        if dtwx.is_raised(r):
+            probs.append({"route": name + ":raised", "lo": [[10 ** 7]], "hi": [[-10 ** 7]]})
+            return
+        a = np().asarray(r, dtype=float)
+        if nd == 1:
+            a = a.reshape(-1, 1)
+        if not np().all(np().isfinite(a)):
+            probs.append({"route": name + ":not-finite", "lo": [[10 ** 7]], "hi": [[-10 ** 7]]})
+            return
+        probs.append({"route": name, "lo": [[int(math.floor(x * 1000)) for x in row] for row in a],
+                      "hi": [[int(math.ceil(x * 1000)) for x in row] for row in a]})
+
+    for nbs in it.get("prob_samples", []):
+        def cprob(container, _n=nbs):
+            c = avg.copy()
+            if flat:
+                dtw_cc.dba(container, c, mask=packed, nb_prob_samples=_n, **kwc)
+            else:
+                dtw_cc.dba_ndim(container, c, mask=packed, nb_prob_samples=_n, ndim=nd, **kwc)
+            return c
+        addp("c:dtw_cc.dba[list,prob=%d]" % nbs, lambda: cprob(ser))
+        if equal:
+            from dtaidistance.util import SeriesContainer
+            addp("c:dtw_cc.dba[matrix container,prob=%d]" % nbs, lambda: cprob(SeriesContainer.wrap(np().array(ser))))
+    return {"id": it["id"], "routes": routes, "news": news, "dns": dns, "loops": loops, "probs": probs}
